@@ -12,6 +12,7 @@ VTOL = 1e-6  # eigen / singular values must be this close to the integer lattice
 RTOL = 1e-7  # relative residual of an eigen / singular equation
 OTOL = 1e-6  # entries of the Gram matrix
 FTOL = 1e-8  # entries of matrix functions (relative to the largest entry)
+FTOL_SQRT = 1e-6  # square roots: sqrt turns an eigenvalue 1e-16 (exact 0) into 1e-8
 QCAP = 999997
 
 
@@ -129,16 +130,22 @@ def nonherm_from_spec(rng, gspec, cplx):
     return np.ascontiguousarray(S @ D @ np.linalg.inv(S))
 
 
-def rand_gspec(rng, n, cplx):
-    """Gaussian-integer spectrum; conjugate pairs adjacent when the matrix is to be real"""
-    out = []
+def rand_gspec(rng, n, cplx, simple=False):
+    """Gaussian-integer spectrum; conjugate pairs adjacent when the matrix is to be real.
+    simple=True: all eigenvalues distinct (what a single-vector Krylov method can resolve)."""
+    rmax, imax = (3, 2) if n <= 12 else (6, 4)
+    out, used = [], set()
     while len(out) < n:
-        a = int(rng.integers(-3, 4))
-        b = int(rng.integers(-2, 3)) if rng.random() < 0.5 else 0
+        a = int(rng.integers(-rmax, rmax + 1))
+        b = int(rng.integers(-imax, imax + 1)) if rng.random() < 0.5 else 0
+        if simple and ((a, b) in used or (a, -b) in used):
+            continue
         if cplx or b == 0:
             out.append([a, b])
+            used.add((a, b))
         elif len(out) + 2 <= n:
             out += [[a, b], [a, -b]]
+            used.update([(a, b), (a, -b)])
     return out
 
 
@@ -216,6 +223,9 @@ class Catch:
                     self.value = f()
             except Exception as ex:  # noqa - the spec decides
                 self.exc = type(ex).__name__
+                # an inner iterative solve that says it did not converge (scipy raises a plain ValueError)
+                if self.exc != "ArpackNoConvergence" and any(c in str(ex) for c in self.CONV):
+                    self.exc = "NoConvergence"
         for x in w:
             if any(c in str(x.message) for c in self.CONV):
                 self.warn = True
